@@ -11,7 +11,7 @@ package builtin
 //@ func Transaction(th, args) (r)
 //@   nosafety
 //@   requires th != nil && len(args) >= 3
-//@   modifies all, gTran, gCompletes, gRollbacks, gBlockThrew, gBlockRet
+//@   modifies all, gTran, gCompletes, gRollbacks, gBlockThrew, gBlockRet, gCalls
 //@   ensures! block_form_ends: old(args[2]) != core.False ==> gTran.status != 0 && fresh(gTran)
 //@   ensures! completed_not_rolled_back: gRollbacks == old(gRollbacks)
 //@   ensures! exception_propagates: !recovered()
